@@ -15,8 +15,14 @@ REQUIRED = ['pscCheck_sound_complete', 'unsupported_coalition_trivial', 'droop_a
 UNPROVED = []
 NAME_MODES = ['str', 'int0', 'empty0', 'person']
 REQUIRED_COUNTERS = ['coalition_k_ge_1_and_larger', 'refusal', 'hare', 'shared_ranks', 'majority_winner', 'psc_false',
-                     'multi_seat', 'hare_quota', 'impl_outcome_checked', 'fraction_weights']
-RULE = ('ranked profiles over 1-6 candidates, 1-10 ballot types, with and without shared ranks, truncated ballots, weights from a '
+                     'multi_seat', 'hare_quota', 'impl_outcome_checked', 'fraction_weights',
+                     # generator audit (harness/GENERATOR_CHECKLIST.md)
+                     'big_on_quota', 'big_below_quota', 'big_above_quota', 'big_near_tie', 'big_coalition', 'decimal_weights',
+                     'decimal_long', 'zero_total', 'shared_only_candidate', 'shared_rank_3', 'shared_rank_4plus', 'four_plus_seats',
+                     'exhausted_several_quotas', 'quota_callable', 'quota_constant', 'quota_none', 'transferer_by_name',
+                     'retainer_plurality', 'step_-2', 'accept_equal_false', 'mandatory_quota', 'sens_accept_equal',
+                     'sens_mandatory_quota', 'sens_eliminate_step', 'warmup_refusal', 'warmup_larger', 'warmup_other_n', 'warmup_big']
+RULE = ('(audited against harness/GENERATOR_CHECKLIST.md) ranked profiles over 1-6 candidates, 1-10 ballot types, with and without shared ranks, truncated ballots, weights from a '
         'tie-forcing small set / Fractions / integers up to 10^20, all n_seats 1..#candidates, quota droop / hare, Gregory and '
         'Hare(seed) transfer (Hare with the integer droop quota), TransferableVoteSelector.evaluate; every outcome of the '
         'implementation is additionally passed through the verified PSC checker (psc_check), as are synthetic outcomes that '
@@ -94,11 +100,8 @@ def _first_pref_totals(votes):
 # implementation side
 
 def _quota_used(case, votes):
-    import votelib.component.quota as vq
-    V = sum(votes.values())
-    if not case.get('quota') or not V or not case['n']:
-        return None
-    return Fraction(vq.get(case['quota'])(V, case['n']))
+    """textbook value of the configured quota (harness/props/stvlib.REF_QUOTAS), not taken from votelib"""
+    return ref_quota(case, sum(Fraction(v) for v in votes.values()), case['n'])
 
 
 def impl(case):
@@ -119,6 +122,44 @@ def impl(case):
         psc = not psc_violations([(b, Fraction(w)) for b, w in case['votes']], q, result)
     _CACHE[key] = draws
     # counters
+    for b, _ in case['votes']:
+        for it in b:
+            if isinstance(it, list) and len(it) == 3:
+                _tag(case, 'shared_rank_3')
+            if isinstance(it, list) and len(it) >= 4:
+                _tag(case, 'shared_rank_4plus')
+    alone = {it for b, _ in case['votes'] for it in b if not isinstance(it, list)}
+    if any(c not in alone for c in profile_cands(case['votes'])):
+        _tag(case, 'shared_only_candidate')
+    if n >= 4:
+        _tag(case, 'four_plus_seats')
+    if case.get('wtype') == 'decimal':
+        _tag(case, 'decimal_weights')
+        if any(Fraction(w).denominator > 10 ** 6 for _, w in case['votes']):
+            _tag(case, 'decimal_long')
+    if case['votes'] and sum(Fraction(w) for _, w in case['votes']) == 0:
+        _tag(case, 'zero_total')
+    qf = case.get('quota')
+    _tag(case, 'quota_none' if qf is None else 'quota_constant' if quota_is_const(qf)
+         else 'quota_callable' if case.get('quota_form') == 'callable' else 'quota_name')
+    if case.get('transferer_form') == 'name':
+        _tag(case, 'transferer_by_name')
+    if case.get('retainer'):
+        _tag(case, 'retainer_plurality')
+    if case.get('step', -1) == -2:
+        _tag(case, 'step_-2')
+    if not case.get('accept_equal', True):
+        _tag(case, 'accept_equal_false')
+    if case.get('mandatory'):
+        _tag(case, 'mandatory_quota')
+    if case.get('warmup'):
+        _tag(case, 'warmup_' + case.get('_warm_kind', 'x'))
+    for rec in counts:
+        if 'err' in rec or rec.get('quota') is None:
+            continue
+        exh = sum((Fraction(w) for h, pile in rec['alloc_in'] if h is None for _, w in pile), Fraction(0))
+        if Fraction(rec['quota']) > 0 and exh >= 2 * Fraction(rec['quota']):
+            _tag(case, 'exhausted_several_quotas')
     if case['method'] == 'hare':
         _tag(case, 'hare')
     if case.get('quota') == 'hare':
@@ -143,7 +184,8 @@ def impl(case):
     V = sum(Fraction(w) for _, w in case['votes'])
     if n == 1 and any(t > V / 2 for t in _first_pref_totals(case['votes']).values()):
         _tag(case, 'majority_winner')
-    return {'result': result, 'quota': qstr(q), 'psc': psc, '_msg': msg, '_bad_draws': bad}
+    return {'result': result, 'quota': qstr(q), 'psc': psc, '_msg': msg, '_bad_draws': bad,
+            '_quotas': sorted(set(quotas))}
 
 
 def oracle(case, obs):
@@ -155,13 +197,23 @@ def oracle(case, obs):
     res = obs['result']
     cands = profile_cands(case['votes'])
     n = case['n']
+    default_opts = (case.get('step', -1) == -1 and not case.get('mandatory') and case.get('accept_equal', True))
+    # the quota in force is the textbook value of the configured quota (computed here, not taken from votelib)
+    want_q = ref_quota(case, sum((Fraction(w) for _, w in case['votes']), Fraction(0)), n)
+    for got in obs.get('_quotas', []):
+        if Fraction(got) != want_q:
+            out.append(('quota_value', f'quota {got} used, the configured quota is {want_q}'))
+            break
     if isinstance(res, dict):
         e = res.get('err')
         if e == 'NotImplementedError':
             return out          # declared refusal (unresolved tie)
+        if e == 'TypeError' and case.get('wtype') == 'decimal':
+            return out          # Decimal vote counts are not supported by the STV classes in any configuration
         if e == 'VotingSystemError':
-            # the property promises n winners only "whenever that many stand"
-            if 1 <= n <= len(cands):
+            # the property promises n winners only "whenever that many stand"; with mandatory_quota or a step of -2 the count may
+            # legitimately run out of candidates (options outside the quantifier of C04)
+            if 1 <= n <= len(cands) and case.get('step', -1) == -1 and not case.get('mandatory'):
                 out.append(('infinite_loop', f"VotingSystemError: {obs.get('_msg')}"))
         else:
             out.append(('unexpected_error', f"{e}: {obs.get('_msg')}"))
@@ -174,9 +226,11 @@ def oracle(case, obs):
         for c, t in _first_pref_totals(case['votes']).items():
             if t > V / 2 and res != [c]:
                 out.append(('majority_first_choice', f'{c} is first on {t} of {V} ballots, elected {res}'))
+    psc_applies = (default_opts or (case.get('mandatory') and case.get('step', -1) == -1 and case.get('accept_equal', True))) \
+        and case.get('quota') in ('droop', 'hare')
     if obs['quota'] is not None and Fraction(obs['quota']) <= 0:
         out.append(('quota_not_positive', f'quota {obs["quota"]}'))
-    elif obs['quota'] is not None:
+    elif obs['quota'] is not None and psc_applies:
         for S, sup, k, got, shared_inside in psc_violations([(b, Fraction(w)) for b, w in case['votes']], Fraction(obs['quota']), res):
             code = 'psc_coalition_with_shared_rank' if shared_inside else 'psc'
             out.append((code, f'coalition {S} is solidly supported by {sup} = {k} quota(s) of {obs["quota"]}, only {got} elected in {res}'))
@@ -211,6 +265,9 @@ def compare(case, iobs, mobs):
         return None if iobs == mobs else f'python checker {iobs}, verified checker {mobs}'
     if not isinstance(mobs, dict):
         return f'model answered {mobs}'
+    if case.get('wtype') == 'decimal' and iobs['result'] == {'err': 'TypeError'}:
+        _tag(case, 'decimal_rejected')
+        return None
     if canon(iobs['result']) != canon(mobs.get('result')):
         return f'result impl={iobs["result"]} model={mobs.get("result")}'
     if (iobs['quota'] is None) != (mobs.get('quota') is None) or (
@@ -224,12 +281,16 @@ def compare(case, iobs, mobs):
 # ------------------------------------------------------------------------------------------------
 # generator
 
-def _case(rng, votes, n, method='gregory', quota='droop', seed=0, tags=()):
+def _case(rng, votes, n, method='gregory', quota='droop', seed=0, tags=(), **opts):
     c = {'op': 'stv_eval_psc', 'votes': votes, 'n': n, 'form': 'selector', 'method': method, 'seed': seed, 'quota': quota,
          'accept_equal': True, 'mandatory': False, 'step': -1, '_tags': list(tags)}
+    c.update(opts)
     if method == 'hare':
-        c['quota'] = 'droop'
+        if c['quota'] in ('hare', 'hagenbach_bischoff'):
+            c['quota'] = 'droop'
         c['votes'] = [[b, num_str(int(Fraction(w)))] for b, w in votes]
+        if c.get('warmup'):
+            c['warmup'] = {'votes': [[b, num_str(int(Fraction(w)))] for b, w in c['warmup']['votes']], 'n': c['warmup']['n']}
     return c
 
 
@@ -291,6 +352,66 @@ def _directed(rng):
     yield {'op': 'psc_check', 'votes': [[[0, 1, 2], '6'], [[1, 0], '1'], [[2], '3'], [[3, 2], '2']], 'q': '4', 'elected': [0, 3], '_tags': ['directed']}
 
 
+def _audit_directed(rng):
+    """shapes of harness/GENERATOR_CHECKLIST.md, constructed so that every counter is hit on every seed"""
+    r = rng.randint
+    # 2. magnitude: candidate 0 exactly on / one below / one above the integer Droop quota at 10^15 .. 10^30
+    for delta, tag in ((0, 'big_on_quota'), (-1, 'big_below_quota'), (1, 'big_above_quota')):
+        votes, q, V = big_boundary_profile(rng, 2, delta)
+        yield from _checked(_case(rng, votes, 2, tags=['directed', tag]))
+    votes, q, V = big_boundary_profile(rng, 2, 0)
+    yield _case(rng, votes, 2, tags=['directed', 'big_on_quota', 'sens_accept_equal'], accept_equal=False)
+    yield from _checked(_case(rng, near_tie_big_profile(rng), 1, tags=['directed', 'big_near_tie']))
+    # a coalition {0,1} holding exactly one quota (and exactly one vote less) at that magnitude, 2 seats
+    for delta in (0, -1):
+        e = rng.choice([15, 18, 24, 30])
+        q = 10 ** e + r(1, 999)
+        V = 3 * (q - 1) + r(0, 2)
+        a = q // 2 + r(1, 9)
+        b = q + delta - a
+        rest = V - a - b
+        votes = [[[0, 1, 2], str(a)], [[1, 0, 3], str(b)], [[2, 3], str(rest // 2)], [[3], str(rest - rest // 2 - 3)], [[4, 3], '3']]
+        yield from _checked(_case(rng, votes, 2, tags=['directed', 'big_coalition']))
+    # 1. numeric types
+    yield _case(rng, decimal_profile(rng), 1, quota=None, tags=['directed'], wtype='decimal')
+    yield _case(rng, decimal_profile(rng, long=True), 2, tags=['directed'], wtype='decimal')
+    yield _case(rng, [[[0, 1], '0'], [[1], '0'], [[2, 0], '0']], r(1, 2), tags=['directed'])
+    for eq in (True, False):
+        yield from _checked(_case(rng, [[[0, 1], '4'], [[1], '3'], [[2], '3'], [[3, 2], '1']], 2, tags=['directed', 'sens_accept_equal'],
+                                  accept_equal=eq))
+    # 5. structure
+    sv = shared_only_profile(rng)
+    yield from _checked(_case(rng, sv, 4, tags=['directed']))
+    yield from _checked(_case(rng, sv, 5, quota='hare', tags=['directed']))
+    yield from _checked(_case(rng, [[[[0, 1, 2, 3], 4], num_str(8 + r(0, 3))], [[[1, 2, 4]], '5'], [[4, [0, 3]], '3'], [[2], '2']],
+                              r(2, 4), tags=['directed']))
+    yield from _checked(_case(rng, exhausted_quota_profile(rng), 2, tags=['directed']))
+    yield from _checked(_case(rng, exhausted_quota_profile(rng), 3, quota='hare', tags=['directed']))
+    # 7. constructor options in non-default form, each with an input on which it matters
+    yield from _checked(_case(rng, _coalition_profile(rng, 5), 2, tags=['directed'], quota_form='callable'))
+    yield _case(rng, _coalition_profile(rng, 4), 2, quota=None, tags=['directed'])
+    yield _case(rng, [[[0], num_str(5 + r(0, 1))], [[1], '4'], [[2, 0], '3']], 2, quota='const:3', tags=['directed'])
+    yield from _checked(_case(rng, _coalition_profile(rng, 5), 2, tags=['directed'], transferer_form='name'))
+    yield from _checked(_case(rng, [[[0, 1], '9'], [[0, 2], '5'], [[1], '3'], [[2], '3']], 2, method='hare', tags=['directed'],
+                              transferer_form='name'))
+    yield from _checked(_case(rng, _coalition_profile(rng, 5), 2, tags=['directed'], retainer='plurality'))
+    for st in (-1, -2):
+        yield _case(rng, [[[0], '9'], [[1, 2], '4'], [[2, 1], '3'], [[3, 2], '5']], 1, tags=['directed', 'sens_eliminate_step'], step=st)
+    for mq in (False, True):
+        yield _case(rng, [[[0], '5'], [[1], '2'], [[2], '1']], 2, tags=['directed', 'sens_mandatory_quota'], mandatory=mq)
+    # 6. state between calls
+    import random as _random
+    for kind in ('refusal', 'larger', 'other_n', 'big'):
+        c = _case(rng, _coalition_profile(rng, 4), 2, tags=['directed'])
+        rr = _random.Random(rng.randint(0, 2 ** 30))
+        k2, w = None, None
+        while k2 != kind:
+            k2, w = warmup_variants(rr, c['votes'], c['n'])
+        c['warmup'] = w
+        c['_warm_kind'] = kind
+        yield from _checked(c)
+
+
 def _random_case(rng):
     m = rng.choice([2, 3, 3, 4, 4, 5, 6])
     method = 'gregory' if rng.random() < 0.75 else 'hare'
@@ -306,11 +427,37 @@ def _random_case(rng):
         votes = votes + [[[0], '1']]
         cands = [0]
     n = rng.randint(1, max(1, len(cands)))
-    return _case(rng, votes, n, method=method, quota=rng.choice(['droop', 'droop', 'hare']), seed=rng.randint(0, 9))
+    opts = {}
+    x = rng.random()
+    if x < 0.08:
+        kind, w = warmup_variants(rng, votes, n)
+        if kind != 'big' or method != 'hare':
+            opts['warmup'] = w
+            opts['_warm_kind'] = kind
+    elif x < 0.12:
+        opts['quota_form'] = 'callable'
+    elif x < 0.16:
+        opts['transferer_form'] = 'name'
+    elif x < 0.20:
+        opts['retainer'] = 'plurality'
+    elif x < 0.24:
+        opts['accept_equal'] = False
+    elif x < 0.27:
+        opts['mandatory'] = True
+    elif x < 0.30:
+        opts['step'] = -2
+    quota = rng.choice(['droop', 'droop', 'hare'])
+    if 0.30 <= x < 0.33 and method == 'gregory':
+        quota = 'const:' + num_str(Fraction(rng.randint(2, 9), rng.choice([1, 1, 2])))
+    elif 0.33 <= x < 0.35:
+        quota = None
+    return _case(rng, votes, n, method=method, quota=quota, seed=rng.randint(0, 9), **opts)
 
 
 def generate(rng, tier):
     for c in _directed(rng):
+        yield c
+    for c in _audit_directed(rng):
         yield c
     N = 1800 if tier == "quick" else 30000
     for _ in range(N):
